@@ -119,6 +119,7 @@ type global struct {
 
 	finishOnce sync.Once
 	t0         time.Time
+	co         coalesceStats
 }
 
 type explorer struct {
